@@ -30,6 +30,14 @@ type Case struct {
 	Damage   []scen.Damage   `json:"damage,omitempty"`  // applied to the saved files (index into saved list)
 	DelVols  []int           `json:"del_vols,omitempty"`
 	DblCheck bool            `json:"double_check,omitempty"`
+	Base     string          `json:"base,omitempty"` // index base name (default "set")
+}
+
+func baseOf(c Case) string {
+	if c.Base == "" {
+		return "set"
+	}
+	return c.Base
 }
 
 func checkWriter(c Case) string {
@@ -48,7 +56,7 @@ func checkWriter(c Case) string {
 	fsx.WriteTree(dir, orig)
 	var err error
 	if p, msg := run.Safe(func() {
-		err = par1.Create(filepath.Join(dir, "set.par"), paths, par1.CreateOptions{NumParityFiles: c.NVol})
+		err = par1.Create(filepath.Join(dir, baseOf(c)+".par"), paths, par1.CreateOptions{NumParityFiles: c.NVol})
 	}); p {
 		return "Create panicked: " + msg
 	}
@@ -62,9 +70,9 @@ func checkWriter(c Case) string {
 	}
 	wantSet := md5.Sum(setIn)
 	for v := 0; v <= c.NVol; v++ {
-		name := "set.par"
+		name := baseOf(c) + ".par"
 		if v > 0 {
-			name = fmt.Sprintf("set.p%02d", v)
+			name = fmt.Sprintf("%s.p%02d", baseOf(c), v)
 		}
 		b, err := os.ReadFile(filepath.Join(dir, name))
 		if err != nil {
@@ -159,7 +167,7 @@ func checkReader(c Case) (msg, key string, expect string) {
 	}
 	ver := uint64(0x00010000) | uint64(c.Client)<<32
 	sh := par1ref.SetHash(entries)
-	os.WriteFile(filepath.Join(dir, "set.par"), par1ref.Volume{Version: ver, SetHash: sh, Entries: entries, Data: comment}.Encode(), 0o644)
+	os.WriteFile(filepath.Join(dir, baseOf(c)+".par"), par1ref.Volume{Version: ver, SetHash: sh, Entries: entries, Data: comment}.Encode(), 0o644)
 	del := map[int]bool{}
 	for _, v := range c.DelVols {
 		del[v] = true
@@ -170,7 +178,7 @@ func checkReader(c Case) (msg, key string, expect string) {
 			continue
 		}
 		vols = append(vols, v)
-		os.WriteFile(filepath.Join(dir, fmt.Sprintf("set.p%02d", v)), par1ref.Volume{Version: ver, SetHash: sh, VolNumber: uint64(v), Entries: entries, Data: par1ref.Parity(savedData, v)}.Encode(), 0o644)
+		os.WriteFile(filepath.Join(dir, fmt.Sprintf("%s.p%02d", baseOf(c), v)), par1ref.Volume{Version: ver, SetHash: sh, VolNumber: uint64(v), Entries: entries, Data: par1ref.Parity(savedData, v)}.Encode(), 0o644)
 	}
 	state := map[string][]byte{}
 	for n, d := range savedOrig {
@@ -196,7 +204,7 @@ func checkReader(c Case) (msg, key string, expect string) {
 	}
 	fsx.StampTree(dir)
 	pre, _ := fsx.Take(dir)
-	idx := filepath.Join(dir, "set.par")
+	idx := filepath.Join(dir, baseOf(c)+".par")
 	var vr par1.VerifyResult
 	var err error
 	if p, m := run.Safe(func() { vr, err = par1.Verify(idx, par1.VerifyOptions{VerifyAllData: true}) }); p {
@@ -279,6 +287,7 @@ func genReader(t *rapid.T) Case {
 		c.DelVols = rapid.SliceOfDistinct(rapid.IntRange(1, c.NVol), rapid.ID[int]).Draw(t, "dv")
 	}
 	c.DblCheck = rapid.Bool().Draw(t, "dc")
+	c.Base = rapid.SampledFrom(scen.Bases1).Draw(t, "base")
 	return c
 }
 
@@ -367,6 +376,7 @@ func TestCheck(t *testing.T) {
 	rapid.Check(t, func(rt *rapid.T) {
 		c := Case{Dir: "writer", Files: scen.GenFiles1(rt, 10, 40000)}
 		c.NVol = rapid.IntRange(1, 8).Draw(rt, "nvol")
+		c.Base = rapid.SampledFrom(scen.Bases1).Draw(rt, "base")
 		if !do(c) {
 			rt.Fatalf("C10 writer failed")
 		}
